@@ -1,4 +1,5 @@
-import RichModel.Lemmas.AnsiLine
+import RichModel.Lemmas.AnsiForeign
+import RichModel.Lemmas.AnsiLegacy
 /-!
 # C19 — the ANSI decoder inverts the truecolor encoder, and redirected output is never lost
 
@@ -9,9 +10,10 @@ Tables: `Gen/SgrMap.lean` (`SGR_STYLE_MAP`, `Style._style_map`, translated on ev
 Everything here holds for lines, texts, styles, histories of any size.  `decide +kernel` is used
 only for the two table obligations and for closed witnesses that look a character up in those tables.
 
-The two code variants (`Ansi.Cfg`): `intRaises` (F10) and `flushRaw` (F20) are `true` for rich 9.10.0 as
-found; the full-strength proxy theorems are proved for the repaired variant and the `old_…` theorems
-show by evaluation that the variant as found violates them.
+The code variants (`Ansi.Cfg`): `intRaises` (F10), `flushRaw` (F20) — repaired in /repo — and `emptyIgnored` (F27),
+`resetDropsLink` (F28), `offSingle` (F29) are `true` for rich 9.10.0 as found; the full-strength theorems are
+proved for the repaired variant and the `old_…` theorems show by evaluation that the variant as found violates
+them.  The round trip `decode_encode` holds for every variant (the encoder never writes what F27-F29 are about).
 -/
 namespace RichModel.C19
 open RichModel RichModel.Ansi RichModel.Style
@@ -23,8 +25,8 @@ or colour it was written for: for each of the 13 attribute bits `Style._style_ma
 such that `Style.parse(SGR_STYLE_MAP[k])` sets exactly that bit; 30-37 / 90-97 / 40-47 / 100-107 / 39 / 49
 parse to the sixteen standard colours and `default` on the right side; every entry parses; 38 and 48 are
 not in the table (they would shadow the extended-colour sub-parsers); the off codes 22-29, 54, 55 only switch
-off the attributes ECMA-48 assigns to them.  For every `Style` variant. -/
-theorem sgr_table_inverts_style_map (v : StyleVariant) : tablesOk v = true := tablesOk_all v
+off the attributes ECMA-48 assigns to them.  (Style operations at `StyleVariant.fixed`, see `Ansi.Cfg.sv`.) -/
+theorem sgr_table_inverts_style_map : tablesOk StyleVariant.fixed = true := tables_ok
 
 /-- `str(n)` for `n ≤ 255` is made of characters `str.isdigit` accepts, `int()` reads it back as `n`, and it
 contains none of `;`, `m`, newline, ESC, CR. -/
@@ -39,7 +41,7 @@ decoder): `_render_buffer` on a truecolor terminal succeeds, `decode_line` of it
 the decoder blank again, and yields **per character** the same character with the same attributes that
 are on, the same colours (type, number, triplet) and the same link. -/
 theorem decode_encode (cfg : Ansi.Cfg) (segs : List Seg) (hok : ∀ g ∈ segs, SegOk g) (st : Style) (hst : Blank st) :
-    ∃ x st' runs, encodeSegs segs = .ok x ∧ decodeLine cfg st x = (st', .ok runs) ∧ Blank st' ∧
+    ∃ x st' runs, encodeSegs false segs = .ok x ∧ decodeLine cfg st x = (st', .ok runs) ∧ Blank st' ∧
       charsOf runs = expectedChars segs := by
   obtain ⟨x, st2, runs, hx, hcr, hR, hb, hch⟩ := segs_roundtrip cfg segs hok st hst [] rfl
   refine ⟨x, st2, runs, hx, ?_, hb, by simpa using hch⟩
@@ -50,7 +52,7 @@ theorem decode_encode (cfg : Ansi.Cfg) (segs : List Seg) (hok : ∀ g ∈ segs, 
 break, so every line decodes to what its own segments say. -/
 theorem decode_encode_lines (cfg : Ansi.Cfg) (lines : List (List Seg)) (hok : ∀ l ∈ lines, ∀ g ∈ l, SegOk g)
     (st : Style) (hst : Blank st) :
-    ∃ xs st' texts, lines.mapM encodeSegs = .ok xs ∧ decodeMany cfg st xs = (st', .ok texts) ∧ Blank st' ∧
+    ∃ xs st' texts, lines.mapM (encodeSegs false) = .ok xs ∧ decodeMany cfg st xs = (st', .ok texts) ∧ Blank st' ∧
       texts.map charsOf = lines.map expectedChars := by
   induction lines generalizing st with
   | nil => exact ⟨[], st, [], rfl, rfl, hst, rfl⟩
@@ -153,9 +155,88 @@ theorem old_flush_prints_raw :
 /-- F10 through the proxy, code as found: `write("q\n\x1b[²m\n")` raises and prints nothing — the complete
 line `q` is lost (`units` says it must be printed). -/
 theorem old_write_loses_line :
-    (run ⟨StyleVariant.fixed, true, false⟩ Proxy.init [.write ['q', '\n', ESC, '[', '²', 'm', '\n']]).2 = [.raised .valueError] ∧
+    (run ⟨true, false, false, false, false⟩ Proxy.init [.write ['q', '\n', ESC, '[', '²', 'm', '\n']]).2 = [.raised .valueError] ∧
     units [.write ['q', '\n', ESC, '[', '²', 'm', '\n']] = [['q'], [ESC, '[', '²', 'm']] := by
   decide +kernel
+
+/-! ## The proxies as a live display installs them: stdout and stderr on one console -/
+
+/-- **proxy_two_streams.**  `Live.start` / `Progress.start` install two proxies (stdout, stderr), each with its own
+buffer and decoder, printing through one console.  For every interleaved history of calls on the two streams and
+each stream `b`: what the console is asked to print on behalf of `b` is exactly the decoded units of the flattened
+calls made on `b` — each once, in order, complete, carried by `b`'s own decoder state; so nothing written to one
+stream is ever glued to, or styled by, what was written to the other; nothing is raised; `b`'s unterminated rest
+stays in `b`'s buffer; every print is verbatim. -/
+theorem proxy_two_streams (cfg : Ansi.Cfg) (hraw : cfg.flushRaw = false) (hint : cfg.intRaises = false)
+    (h : List (Bool × Op)) (b : Bool) :
+    ∃ st' ts,
+      decodeMany cfg Style.null (units (proj b h)) = (st', .ok ts) ∧
+      printedTexts (eventsOf b (run2 cfg Proxies.init h).2) = ts ∧ ts.length = (units (proj b h)).length ∧
+      ((run2 cfg Proxies.init h).1.get b).buffer.flatten = pending (proj b h) ∧
+      (∀ e ∈ eventsOf b (run2 cfg Proxies.init h).2, e.verbatim = true) := by
+  obtain ⟨h1, h2⟩ := run2_proj cfg b h Proxies.init
+  have hinit : Proxies.init.get b = Proxy.init := by cases b <;> rfl
+  rw [hinit] at h1 h2
+  obtain ⟨st', ts, a1, a2, a3, a4, _⟩ := proxy_lines cfg hraw hint (proj b h)
+  refine ⟨st', ts, a1, by rw [h1]; exact a2, a3, by rw [h2]; exact a4, ?_⟩
+  rw [h1]
+  exact proxy_verbatim cfg hraw hint (proj b h)
+
+/-! ## Foreign ANSI: the decoder reads SGR the way ECMA-48 does -/
+
+/-- Every row of the decoder's table (repaired rows for 24 / 25) has exactly the effect ECMA-48 8.3.117 gives
+its code on the modelled aspects, and no code ECMA-48 gives a meaning to is missing (0, 38, 48 are handled by
+the loop itself; 26 is outside).  Re-proved on the translated table on every run. -/
+theorem sgr_table_agrees_with_ecma48 : tableAgrees Ansi.Cfg.repaired = true := table_agrees_ecma
+
+/-- **decode_sgr_means_ecma.**  Repaired variant: for every style that kept the constructors' invariant and
+every list of SGR parameters (without 26), the style the decoder reaches means — attributes on, foreground,
+background, hyperlink — exactly what the ECMA-48 / ISO 8613-6 interpreter `ecmaFold` computes from the meaning
+of the style it started from.  In particular a reset keeps the hyperlink, 24 / 25 clear the double variants. -/
+theorem decode_sgr_means_ecma (cfg : Ansi.Cfg) (hr : cfg.resetDropsLink = false) (ho : cfg.offSingle = false)
+    (codes : List Nat) (h26 : ∀ c ∈ codes, c ≠ 26) (st : Style) (hs : Inv st) :
+    absStyle (applyCodes cfg st codes 0).1 = ecmaFold (absStyle st) codes 0 :=
+  (applyCodes_means_ecma cfg hr ho codes h26 st hs 0).1
+
+/-- Repaired variant: an omitted parameter is a zero (ECMA-48 5.4.2) — `p1;p2;…` with each `pi` omitted or a
+number ≤ 255 in decimal reads as those numbers, and `ESC [ m` reads as `[0]`, a reset. -/
+theorem sgr_omitted_parameters_are_zero (cfg : Ansi.Cfg) (he : cfg.emptyIgnored = false) :
+    sgrCodes cfg [] = .ok [0] ∧
+    ∀ ps : List (Option Nat), ps ≠ [] → (∀ n, some n ∈ ps → n < 256) →
+      sgrCodes cfg (joinWith ';' (ps.map paramText)) = .ok (ps.map (·.getD 0)) :=
+  ⟨sgrCodes_empty cfg he, fun ps hne hlt => sgrCodes_params cfg he ps hne hlt⟩
+
+/-- F27 on the code as found: in `ESC[1m b ESC[m p` the `p` is still bold; repaired: it is plain. -/
+theorem old_empty_param_ignored :
+    ((decodeLine Ansi.Cfg.old Style.null [ESC, '[', '1', 'm', 'b', ESC, '[', 'm', 'p']).2.toOption.map charsOf).map (·.map (·.2.on.head?))
+      = some [some true, some true] ∧
+    ((decodeLine Ansi.Cfg.repaired Style.null [ESC, '[', '1', 'm', 'b', ESC, '[', 'm', 'p']).2.toOption.map charsOf).map (·.map (·.2.on.head?))
+      = some [some true, some false] := by decide +kernel
+
+/-- F28 on the code as found: SGR 0 inside a hyperlink drops the link; ECMA-48 keeps it. -/
+theorem old_reset_drops_link :
+    (absStyle (applyCodes Ansi.Cfg.old (linkOnly (some ['u'])) [0] 0).1).link = none ∧
+    (ecmaFold (absStyle (linkOnly (some ['u']))) [0] 0).link = some ['u'] := by decide +kernel
+
+/-- F29 on the code as found: `21;24` leaves the double underline (bit 9) on; ECMA-48: not underlined. -/
+theorem old_off_keeps_double :
+    (absStyle (applyCodes Ansi.Cfg.old Style.null [21, 24] 0).1).on = 512 ∧
+    (ecmaFold ⟨0, none, none, none⟩ [21, 24] 0).on = 0 := by decide +kernel
+
+/-! ## `legacy_windows=True` -/
+
+/-- On a legacy Windows console `Style.render` writes no hyperlink: the round trip holds with the link
+dropped from what is expected, everything else — characters, attributes, colours — as before. -/
+theorem decode_encode_legacy (cfg : Ansi.Cfg) (segs : List Seg) (hok : ∀ g ∈ segs, SegOk g) (st : Style) (hst : Blank st) :
+    ∃ x st' runs, encodeSegs true segs = .ok x ∧ decodeLine cfg st x = (st', .ok runs) ∧ Blank st' ∧
+      charsOf runs = (expectedChars segs).map fun p => (p.1, p.2.dropLink) := by
+  have hok' : ∀ g ∈ segs.map stripLink, SegOk g := by
+    intro g hg
+    simp only [List.mem_map] at hg
+    obtain ⟨g0, h0, rfl⟩ := hg
+    exact segOk_stripLink (hok g0 h0)
+  obtain ⟨x, st', runs, h1, h2, h3, h4⟩ := decode_encode cfg (segs.map stripLink) hok' st hst
+  exact ⟨x, st', runs, by rw [encodeSegs_legacy]; exact h1, h2, h3, by rw [h4, expectedChars_stripLink]⟩
 
 /-! ## Non-vacuity -/
 
@@ -186,7 +267,7 @@ example : ∀ g ∈ sampleSegs, SegOk g := by
 example : Blank Style.null := blank_null
 
 /-- what the model writes for the sample, and that it decodes back (evaluated) -/
-example : (encodeSegs sampleSegs).toOption.map (fun x => (decodeLine Ansi.Cfg.old Style.null x).2.toOption.map charsOf)
+example : (encodeSegs false sampleSegs).toOption.map (fun x => (decodeLine Ansi.Cfg.old Style.null x).2.toOption.map charsOf)
     = some (some (expectedChars sampleSegs)) := by decide +kernel
 
 example : units [.write ['a'], .write ['b', '\n', 'c'], .flush false, .flush false, .write ['\n']] = [['a', 'b'], ['c'], []] := by
